@@ -14,7 +14,7 @@
     checker: PG/ProofGameCert.v (specification side only). *)
 From Coq Require Import ZArith NArith List Bool.
 From Texel Require Import Chess.Types Chess.Spec.
-From Texel Require Import PG.ProofGameCert PG.PieceCount PG.PieceCountProofs PG.PieceCountTheorems PG.Kernel.
+From Texel Require Import PG.ProofGameCert PG.PieceCount PG.PieceCountProofs PG.PieceCountTheorems PG.Kernel PG.KernelProofs.
 Import ListNotations.
 Local Open Scope Z_scope.
 
@@ -77,10 +77,37 @@ Theorem C16_enough_remaining : forall sp moves goal,
 Proof. exact enough_remaining_accepted. Qed.
 Print Assumptions C16_enough_remaining.
 
-(** STRETCH, not proved: the map position |-> proof-kernel state is a simulation - every legal
-    move is a kernel step (stutter, promotion, or one of the capture forms) of PG/Kernel.v;
-    with it a reachable goal has a kernel path, i.e. "no proof kernel => illegal" would be
-    sound for an exhaustive kernel search.  Kept as a statement only. *)
+(** Kernel abstraction.  [alpha] maps a position to its proof-kernel state (pawn columns in order, piece
+    counts with bishops split by square colour: ProofKernel::posToState); [kstep] lists the kernel move
+    kinds of proofkernel.hpp (pieceXPiece, pieceXPawn, pawnXPawn, pawnXPiece / pawnXPromPawn,
+    pawnXPieceProm / pawnXPromPawnProm) plus the non-capture promotion the search keeps implicit and the
+    stutter.  Full statement (not proved): every legal move from a reachable position is a kernel step;
+    with it a reachable goal has a kernel path, i.e. "no proof kernel => illegal" is sound for an
+    exhaustive kernel search. *)
 Definition C16_kernel_abstraction_statement : Prop :=
   forall sp m, reachable sp -> legal_spec sp m ->
     kstep (sp_white sp) (alpha sp) (alpha (make_spec sp m)).
+
+(** proved part: moves of pieces other than pawns, castling excluded - a quiet move leaves the kernel
+    state unchanged (a bishop stays on its square colour), a capture of an enemy man (not the king) is
+    the kernel move "piece takes piece" / "piece takes pawn" (the pawn leaves its column at the index
+    given by the pawns below it).  Missing: pawn moves (pushes, captures, en passant, promotions) and
+    castling. *)
+Theorem C16_kernel_abstraction_partial : forall sp m k,
+  reachable sp -> legal_spec sp m ->
+  moved sp m = mk_piece (sp_white sp) k -> k <> Pawn -> ~ is_castling sp m ->
+  (at_ (sp_board sp) (file_of (mto m)) (rank_of (mto m)) = EMPTY \/
+   exists vk, at_ (sp_board sp) (file_of (mto m)) (rank_of (mto m)) = mk_piece (negb (sp_white sp)) vk /\ vk <> King) ->
+  kstep (sp_white sp) (alpha sp) (alpha (make_spec sp m)).
+Proof. exact kernel_abstraction_partial_reachable. Qed.
+Print Assumptions C16_kernel_abstraction_partial.
+
+(** in particular a quiet move of a piece is a stutter: the kernel state is literally unchanged *)
+Theorem C16_quiet_piece_move_stutters : forall sp m k,
+  length (sp_board sp) = 64%nat -> legal_spec sp m ->
+  moved sp m = mk_piece (sp_white sp) k -> k <> Pawn ->
+  at_ (sp_board sp) (file_of (mto m)) (rank_of (mto m)) = EMPTY ->
+  ~ (k = King /\ (file_of (mto m) - file_of (mfrom m) = 2 \/ file_of (mto m) - file_of (mfrom m) = -2)) ->
+  alpha (make_spec sp m) = alpha sp.
+Proof. exact quiet_piece_move_stutters. Qed.
+Print Assumptions C16_quiet_piece_move_stutters.
